@@ -1,7 +1,7 @@
 (* C05: import names are unique and legal for any path, hint and prefix.
    Statements only; every proof is `exact` of a lemma of Proofs/NamingProofs.v. *)
 From Jen Require Import Base.Bytes Model.Code Model.Naming Gen.Tables Gen.Goroot.
-From Jen Require Import Proofs.NamingProofs.
+From Jen Require Import Proofs.NamingProofs Spec.TableUses.
 
 (* The import table of a File is only ever changed by registrations (performed by renders,
    each under the hints and PackagePrefix in force at that moment) and by Anon calls.  For
@@ -29,6 +29,22 @@ Proof. exact history_names_legal. Qed.
    every run): removing a word from the list breaks this obligation. *)
 Theorem C05_reserved_complete : forall w, In w (go_keywords ++ go_universe) -> is_reserved w = true.
 Proof. exact reserved_word_never_chosen. Qed.
+
+(* ... and the list is used the way the model uses it (Spec/TableUses.v; tables2coq reads the
+   source on every run).  The translator met nothing it could not read: no init function, no
+   assignment to / address of `reserved`, IsReservedWord is LITERALLY
+   `for _, n := range reserved { if a == n { return true } }; return false`
+   (reserved_problems = []); isValidAlias(a) begins with `if a == "." { return true }` and
+   `if IsReservedWord(a) { return false }`; and in the whole of package jen (non-test files)
+   the identifier `reserved` occurs only as its declaration and as the range of that loop,
+   `IsReservedWord` only as its declaration and in that test.  The scan of the registered
+   names that follows in isValidAlias, and the numbering loop of register, are NOT read from
+   the source: they are tied to the model by the differential run. *)
+Theorem C05_reserved_tied :
+  reserved_problems = [] /\ isvalidalias_head = expected_isvalidalias_head /\
+  uses_within table_uses u_reserved [r_decl; r_range] /\ used_as table_uses u_reserved r_range /\
+  uses_within table_uses u_isreserved [r_decl; r_guard] /\ used_as table_uses u_isreserved r_guard.
+Proof. exact reserved_tied. Qed.
 
 (* For every byte string given as a path - digits, punctuation, unicode, trailing slash,
    empty - the guessed alias matches [a-z][a-z0-9]*. *)
